@@ -15,7 +15,7 @@ Print Assumptions skipper_fuel_monotone.
      parenthesised types; function types, constructor types and abstract
      constructor types with type-parameter lists (const / in / out modifiers,
      extends constraint, = default) and parameter lists (this, optional, rest, annotated or
-     not) and return types incl. predicates "x is T" / "this is T"; object types
+     not, destructuring patterns [a, ...b] / {a, k: p, ...r} with leading holes) and return types incl. predicates "x is T" / "this is T"; object types
      with property, method (with type-parameter lists), call, construct, accessor, index-signature and
      mapped-type members (+/- readonly, +/- ?, "as" clause) and ";" / "," / no
      separator; conditional types (extends operand: any union-or-higher type
@@ -29,7 +29,6 @@ Print Assumptions skipper_fuel_monotone.
    Still named _partial; excluded (tied by the correspondence run only):
      "infer U extends C" elsewhere than directly as the extends operand of a
      conditional type (e.g. inside a tuple or type-argument list there);
-     destructuring patterns as parameters;
      "asserts x [is T]" outside return positions (see skip_exact_return);
      parenthesised types whose content starts with "[" "{" "(" or keyof/readonly
      (the arrow-parameter attempt of skipTypeScriptParenOrFnType runs
